@@ -421,7 +421,7 @@ def gen_C02(rng, tier, dist):
 
 
 def gen_C03(rng, tier, dist):
-    out = gen_hist_cases(rng, tier, dist, 400, 25000)
+    out = gen_hist_cases(rng, tier, dist, 400, 25000) + f64_palette_cases(rng, tier, dist)
     # long regular runs at fractional rates: drift would show
     nlong = 6 if tier == "quick" else 40
     for _ in range(nlong):
@@ -435,6 +435,34 @@ def gen_C03(rng, tier, dist):
         ops.append("fins")
         out.append(pcase(cfg_str(codec=codec), ops))
         dist["long_run"] += 1
+    return out
+
+
+def f64_palette_cases(rng, tier, dist):
+    """timestamps chosen by bit pattern: exercises the soft-float model of (secs * 90000.0).round() as u64
+    (sub-tick values, ties at .5 ticks, 2^53 neighbourhood, subnormals, values whose product needs rounding)"""
+    out = []
+    n = 600 if tier == "quick" else 40000
+    K = vp9_key(random.Random(11))
+    D = vp9_delta(random.Random(12))
+    for _ in range(n):
+        k = rng.random()
+        if k < 0.3:
+            a = bits_f64("%016x" % rng.randrange(0x3E00000000000000, 0x40F0000000000000))      # 1e-9 .. 65536 s, random mantissa
+        elif k < 0.5:
+            tick = rng.randrange(0, 2 ** 32)
+            a = (tick + rng.choice([0.5, 0.49999999999, 0.50000000001, 0.0, 0.25])) / 90000.0
+        elif k < 0.6:
+            a = bits_f64("%016x" % rng.randrange(0, 0x0010000000000000))                        # subnormal
+        elif k < 0.7:
+            a = rng.choice([2 ** 53, 2 ** 53 + 2, 2 ** 52 + 1]) / 90000.0 * rng.choice([1.0, 1.0000000000000002])
+        else:
+            a = rng.randrange(0, 10 ** 7) / rng.choice([30.0, 29.97, 1000.0, 90000.0, 48000.0, 3.0])
+        gap = rng.choice([1 / 90000, 1 / 30, 0.5 / 90000 * 3, 1001 / 30000, 2.0 ** -20, 47721.0, rng.random()])
+        b = a + gap
+        ops = ["wv %s %s 1" % (f64bits(a), hx(K)), "wv %s %s 0" % (f64bits(b), hx(D)), "wv %s %s 0" % (f64bits(b + gap * 1.5), hx(D)), "fins"]
+        out.append(pcase(cfg_str(codec="vp9"), ops))
+    dist["f64_palette"] += n
     return out
 
 
